@@ -270,4 +270,42 @@ theorem C19_code_adp_write (I : String → Nat → Rat → Rat) (hI : ZeroFn I) 
   simp only [Atsim.C03.SetflWriter.streamSem_nil, List.nil_append, List.append_assoc]
   rfl
 
+open Atsim.Gen.Logic in
+/-- **code tie (ADP factory)**: `create_tabulation` as it runs on an `ADP_EAMTabulationFactory` (its own `extract_tabulation_args`, which unpacks the six values of the
+EAM factory's - reached through `super()` - and adds the objects of the two ADP sections): the tabulation class is constructed with the pair objects, the EAM objects,
+the objects of `[EAM-ADP-Dipole]` THEN those of `[EAM-ADP-Quadrupole]` (not swapped, each read from its own section), and the grid values in the order
+`cutoff, nr, cutoff_rho, nrho`; the first builder that fails ends the construction -/
+theorem C19_code_create_tabulation_adp (pairObjects : Unit → Unit → CpRec → Except FactoryErr (List PotObj)) (mkRefData : CpRec → RefObj)
+    (eamBuilder : CpRec → Unit → Unit → RefObj → Except FactoryErr BuilderObj) (eamPotentialsOf : BuilderObj → List EamRec)
+    (sectionObjects : CpRec → Unit → Unit → String → Except FactoryErr (List PotObj))
+    (tabClass : (List PotObj × List EamRec × List PotObj × List PotObj × Rat × Int × Rat × Int) → TabObj) (t : TabSec) :
+    adp_create_tabulation pairObjects mkRefData eamBuilder eamPotentialsOf sectionObjects tabClass ⟨t⟩ =
+      (match pairObjects () () ⟨t⟩ with
+       | .error e => .error e
+       | .ok pots => match eamBuilder ⟨t⟩ () () (mkRefData ⟨t⟩) with
+         | .error e => .error e
+         | .ok b => match sectionObjects ⟨t⟩ () () "EAM-ADP-Dipole" with
+           | .error e => .error e
+           | .ok dip => match sectionObjects ⟨t⟩ () () "EAM-ADP-Quadrupole" with
+             | .error e => .error e
+             | .ok quad => .ok (tabClass (pots, eamPotentialsOf b, dip, quad, t.cutoff.getD 10, t.nr.getD 1001, t.cutoff_rho.getD 100, t.nrho.getD 1001))) := by
+  unfold adp_create_tabulation pair_extract_potential_objects adp_extract_tabulation_args eam_extract_tabulation_args adp_extract_dipoles adp_extract_quadrupoles
+  have hc : eam_extract_cutoffs ⟨t⟩ = ⟨t.cutoff.getD 10, t.nr.getD 1001, t.cutoff_rho.getD 100, t.nrho.getD 1001⟩ := by
+    unfold eam_extract_cutoffs pair_extract_cutoffs
+    cases h1 : t.cutoff <;> cases h2 : t.nr <;> cases h3 : t.cutoff_rho <;> cases h4 : t.nrho <;> simp [h1, h2, h3, h4]
+  rw [hc]
+  cases pairObjects () () ⟨t⟩ with
+  | error e => rfl
+  | ok pots =>
+    simp only [andThen]
+    cases eamBuilder ⟨t⟩ () () (mkRefData ⟨t⟩) with
+    | error e => rfl
+    | ok b =>
+      simp only []
+      cases sectionObjects ⟨t⟩ () () "EAM-ADP-Dipole" with
+      | error e => rfl
+      | ok dip =>
+        simp only []
+        cases sectionObjects ⟨t⟩ () () "EAM-ADP-Quadrupole" <;> rfl
+
 end Atsim.C19
